@@ -1992,3 +1992,60 @@ def check_field_writers(ctx, f, rule, adt, field, allowed, what):
     ctx.ob(rule, "%s.%s:writers" % (_short(adt), field), not extra, what,
            detail={"other_writers": {w: ws[w][:2] for w in extra}, "writers": sorted(_short(w) for w in ws)})
     return ws
+
+
+def check_raw_text_writers(ctx, f, rule="R-WHO"):
+    """The unescaped form of a text (Text::write_raw) reaches the output only as element content handed to Content::raw
+    (whose call sites are reviewed one by one) or through the base64 encoder.  An attribute value, or any other new way
+    of putting raw text between the markup, is reported with the function that does it."""
+    ok_callers = re.compile(r"^xml::encode::Content::<.*>::raw$|^<.+ as xml::encode::Text>::write_(raw|base64)$|"
+                            r"^xml::encode::Text::write_base64$")
+    sites, bad = [], []
+    for n, b in f.bodies.items():
+        for c in b.calls():
+            if b.is_cleanup(c.bb) or c.name != "write_raw":
+                continue
+            if not ((c.trait or "").endswith("xml::encode::Text") or re.match(r"^<.+ as xml::encode::Text>::write_raw$", c.res or "")):
+                continue
+            who = root_fn_name(f, n)
+            sites.append(who)
+            if not ok_callers.match(who):
+                bad.append("%s @ %s" % (short(who), c.where()))
+    ctx.ob(rule, "Text::write_raw-callers", not bad and len(sites) >= 2,
+           "unescaped text is written only by Content::raw and into the base64 encoder (never as an attribute value)",
+           detail={"other_callers": bad, "callers": sorted({short(x) for x in sites})})
+
+
+def check_base64_chunking(ctx, f, rule="R-GRD"):
+    """Base64 turns 3 octets into 4 characters and pads the last group: encoding a long value piecewise gives the encoding
+    of the whole only if every piece but the last is a multiple of 3 octets long.  Every encode call of the `base64` crate
+    that sits in a loop must take its input from `chunks(n)` / `chunks_exact(n)` with a constant n divisible by 3 (the
+    streaming EncoderWriter keeps its own remainder and is not concerned)."""
+    n = 0
+    for name, b in sorted(f.bodies.items()):
+        if is_derived_body(b):
+            continue
+        sccs = None
+        for c in b.calls():
+            if b.is_cleanup(c.bb) or (c.krate != "base64") or not re.match(r"^encode(_slice|_string)?$", c.name or ""):
+                continue
+            if sccs is None:
+                sccs = b.cycles_sccs()
+            if not any(c.bb in comp for comp in sccs):
+                continue
+            n += 1
+            txt = " ".join(arg_renders(c))
+            m = re.search(r"chunks(?:_exact)?\(([^()]*(?:\([^()]*\))?[^()]*), ([^()]+)\)", txt)
+            size = None
+            if m:
+                t = m.group(2).strip()
+                if re.match(r"^\d+$", t):
+                    size = int(t)
+                else:
+                    cst = f.consts.get(t) or next((v for k, v in f.consts.items() if k.endswith("::" + t)), None)
+                    if cst and isinstance(cst.get("v"), int):
+                        size = cst["v"]
+            ctx.ob(rule, "%s:base64-pieces-are-multiples-of-3" % short(root_fn_name(f, name)), size is not None and size % 3 == 0 and size > 0,
+                   "%s encodes piecewise only in pieces of a multiple of 3 octets (else padding appears inside the text)"
+                   % short(root_fn_name(f, name)), where=c.where(), detail={"input": alpha(txt, b)[:200], "piece_size": size})
+    ctx.note("base64 encode calls inside loops: %d" % n)
